@@ -38,6 +38,17 @@ CLAIMED["C17"] = dict(
     ref="DESIGN.md section 2 (C17)",
     technique="TLA+ spec + TLC exhaustive model checking of all bounded call sequences; spec->code replay with per-call result equality")
 
+CLAIMED["C18"] = dict(
+    text="FJMachineFaults.tla adds a device that raises at its k-th call (library IO error, end-of-input exception raised from a write, "
+         "foreign exception, KeyboardInterrupt) to the six-sub-step machine and prescribes the caller-visible outcome and the state at the "
+         "stop; TLC checks StopIsConsistent exhaustively at w=8 over every image x input x k x kind and every stop is replayed on every engine "
+         "configuration (outcome class, exception identity/cause, device-side call record, output, op count, last-ops list, post-stop memory); "
+         "generated IO-heavy images at all widths are judged record by record by TLC (Trace_FJFaults).",
+    note="Trusted: FJMachineFaults.tla; the harness's faulty device. Interrupts are modelled as KeyboardInterrupt raised by the device at a call; "
+         "asynchronous signals delivered between ops are not yet replayed. When an exception propagates, op count and last-ops list are not observable.",
+    ref="DESIGN.md section 2 (C18)",
+    technique="TLA+ spec with fault-injection actions + TLC exhaustive model checking; spec->code replay and TLC trace validation of recorded fault runs")
+
 NOT_YET = {}
 
 
